@@ -262,6 +262,10 @@ func runC13(ctx *Ctx) error {
 	if err := corrGoJSON(ctx, ctx.N(1500, 20000)); err != nil {
 		return err
 	}
+	// form bodies of flat objects: runtime.MarshalForm / BindForm vs Model/Form.lean
+	if err := corrForm(ctx, ctx.N(600, 8000)); err != nil {
+		return err
+	}
 	nops := ctx.N(24, 200)
 	var ops [][]c13Resp
 	for i := 0; i < nops; i++ {
